@@ -92,6 +92,8 @@ fn check_variant(text: &[u8], vname: &str, model: &Model<'_>, names: &Names, rep
     let base = ast_fp(text);
     let mut exp = vec![];
     let mut got = vec![];
+    let reused = ReusedQuery::new();
+    let mut qn = 0u64;
     for_each_params_query(names, |c, me, p| {
         let bits = model.frames_by_params(c, me, p, &mut exp);
         rep.cases(bits);
@@ -120,6 +122,32 @@ fn check_variant(text: &[u8], vname: &str, model: &Model<'_>, names: &Names, rep
                 let kind = full.split(" cases=").next().unwrap_or("diff");
                 let sig = format!("by-params answer differs from model impl={} {}", who, kind);
                 rep.violation(case_idx, "model-by-params", &sig, d);
+            }
+        }
+        // every third query once more with class, method and parameter string served from
+        // one reused allocation
+        qn += 1;
+        if qn % 3 == 0 && ReusedQuery::fits(c) && ReusedQuery::fits(me) && ReusedQuery::fits(p) {
+            for which in 0..2 {
+                got.clear();
+                let (rc, rm, rp) = (reused.put(0, c), reused.put(1, me), reused.put(2, p));
+                if which == 0 {
+                    mp.frames(rc, rm, 0, None, Some(rp), &mut got)
+                } else {
+                    cache.frames(rc, rm, 0, None, Some(rp), &mut got)
+                }
+                rep.count("evaluations", 1);
+                rep.count("queries_from_reused_storage", 1);
+                if !frames_equal_model(&got, &exp) {
+                    let who = ["mapper+params", "cache"][which];
+                    let mut d = mapping_detail(text, vname);
+                    d.set("implementation", Json::s(who));
+                    d.set("query", query_json(c, me, 0, None, Some(p)));
+                    d.set("expected", show_mframes(&exp));
+                    d.set("actual", show_frames(&got));
+                    rep.violation(case_idx, "model-by-params", &format!("by-params answer differs from model when the query strings come from reused storage impl={who}"), d);
+                }
+                got.clear();
             }
         }
     });
